@@ -6,12 +6,14 @@ MANIFEST = dict(
     text="Lean theorems: the split table regenerated from anchor.rs is sound w.r.t. SQL clause order (table_sound_partial, decided on the "
          "extracted table; the full statement is refuted by table_sound_full_counterexample: Take|Distinct) and the back-to-front scan therefore never keeps two transforms in one SELECT that clause order forbids "
          "(split_respects_clause_order, for pipelines of any length); clause-order evaluation of an assembled SELECT block equals "
-         "pipeline-order evaluation of every admissible segment incl. WHERE/GROUP BY/HAVING/ORDER BY/LIMIT (assemble_correct, "
-         "assemble_correct_agg); column-id redirects at a split commute with evaluation (split_glue_rename); documented edge cases "
+         "pipeline-order evaluation of every admissible segment incl. WHERE/GROUP BY/HAVING/ORDER BY/LIMIT, on the reference "
+         "semantics itself (assemble_correct_rel, assemble_correct_rel_perm for sorts dropped before an aggregate, "
+         "assemble_correct_rel_of_split linking admissibility to the split table); column-id redirects at a split commute with evaluation (split_glue_rename); documented edge cases "
          "on the reference semantics. Tie: the reference semantics Model.Rel.evalSrc (Lean, executable) is compared with the rows "
          "SQLite returns for the SQL the real compiler emits, on generated programs x database instances (sqlite and generic targets).",
-    note="assemble_correct* are proved on an integer-valued core (Lemmas/Sp*.lean), not yet on Model.Rel itself; the mirror of "
-         "anchor_split/requirements and the front end (resolver, lowering) are not modelled: they are covered by the differential run "
+    note="assemble_correct_rel* are proved on Model.Rel itself (filter/derive/select/sort/take/aggregate/group-aggregate with HAVING; "
+         "Lemmas/RelBlock*.lean), the older assemble_correct* on an integer-valued core; group-take, window, join and append are outside "
+         "the block theorem; the mirror of anchor_split/requirements and the front end (resolver, lowering) are not modelled: they are covered by the differential run "
          "against the reference semantics only. SQLite 3.40 value semantics trusted. Floats, dates, loop, s-strings outside the core.",
     technique="Lean 4 proofs over regenerated split table + block normal form; reference-semantics differential run on SQLite", ref="4/C01")
 
@@ -65,7 +67,7 @@ def explore(ctx, label, rng, n, profile, target, no_append=False, cases=None):
 def run(ctx):
     br = vlib.standard_proof_obligations(ctx, ["PrqlModel.Props.C01"], ["Split"],
         required_theorems=["table_sound_partial", "table_sound_full_counterexample", "split_respects_clause_order", "atomic_is_suffix", "assemble_correct",
-                           "assemble_correct_agg", "split_glue_rename", "aggregate_one_row", "group_empty",
+                           "assemble_correct_agg", "split_glue_rename", "assemble_correct_rel", "assemble_correct_rel_perm", "assemble_correct_rel_of_split", "aggregate_order_independent_rel", "aggregate_one_row", "group_empty",
                            "count_counts_nulls", "sum_empty_is_zero"])
     ctx.rule = ("random well-scoped programs of the relational core (from/select/derive/filter/sort/take/aggregate/group/join/append, "
                 "let tables, 1-7 transforms) with resolved positional form for the Lean reference semantics, x random database instances "
